@@ -104,8 +104,12 @@ def hvsr_relations(run, h):
     nrec = 2 if run.quick else 12
     ts = h.TimeSeries
     sm = dict(operator="konno_and_ohmachi", bandwidth=40, center_frequencies_in_hz=np.geomspace(1.0, 20.0, 12))
-    kw = dict(smoothing=sm, window_type_and_width=["tukey", 0.1])
-    for r_ in range(nrec):
+    # "all processing settings": the defaults and a set in which every attribute shared by the families is non-default
+    sm2 = dict(operator="parzen", bandwidth=1.2, center_frequencies_in_hz=np.geomspace(1.5, 30.0, 9))
+    kws = [dict(smoothing=sm, window_type_and_width=["tukey", 0.1]),
+           dict(smoothing=sm2, window_type_and_width=["tukey", 0.7], fft_settings=dict(n=4096), handle_dissimilar_time_steps_by="keeping_smallest_time_step")]
+    for r_ in range(nrec * len(kws)):
+        kw = copy.deepcopy(kws[r_ % len(kws)])
         n = int(rng.choice([500, 777]))
         mk = lambda: np.cumsum(rng.normal(size=n)) * 0.05 + rng.normal(size=n)
         rec = h.SeismicRecording3C(ts(mk(), 0.01), ts(mk(), 0.01), ts(mk(), 0.01), degrees_from_north=0.0)
